@@ -62,6 +62,7 @@ f_marker_found = z3.Function('marker_found', StrS, z3.BoolSort())
 f_marker_dec = z3.Function('marker_decodes', StrS, z3.BoolSort())
 f_marker_type = z3.Function('marker_type', StrS, z3.IntSort())
 f_marker_status = z3.Function('marker_status', StrS, z3.IntSort())      # MarkerStatus: 3 = Active
+f_dec_scale = z3.Function('dec_scale', StrS, z3.IntSort())            # number of fractional digits the text is written with
 f_dec_canon = z3.Function('dec_is_canonical', StrS, z3.BoolSort())    # the text is what Decimal::to_string prints for its value
 f_uuid_nil = z3.Function('uuid_is_nil', StrS, z3.BoolSort())
 f_attr_ok = z3.Function('attr_query_ok', StrS, z3.BoolSort())    # attribute query succeeds for account
@@ -238,10 +239,10 @@ def U(v):
     return Adt('Uint128', None, [v])
 
 
-def Dec(n, d, inexact=False, src=None, factors=None):
+def Dec(n, d, inexact=False, src=None, factors=None, scale=None):
     """value n/d; inexact: went through the 28-digit quotient; src: the string it was parsed from (for to_string);
     factors: (a, f, q) when the value was formed as (a/q)*f from integers (the pro-rata shape), for the oracles' witness matching"""
-    return Adt('Decimal', None, [n, d, inexact, src, factors])
+    return Adt('Decimal', None, [n, d, inexact, src, factors, scale])      # scale: rust_decimal's own scale of the value (Int term) when known
 
 
 def Addr(s):
